@@ -122,6 +122,17 @@ Theorem session_size_exact : forall s, nlen (session_encode s) = session_size s.
 Proof. exact session_size_exact_proved. Qed.
 Print Assumptions session_size_exact.
 
+(* the optional byte fields (Metadata, Checksum, HeaderChecksum, PayloadChecksum,
+   Data) are emitted by MarshalTo and counted by Size() under the same `!= nil`
+   guard; the ten guards are regenerated from the source *)
+Theorem optional_field_guards_agree :
+  (sf_metadata_guard_nil_marshal && sf_metadata_guard_nil_size && sn_checksum_guard_nil_marshal &&
+   sn_checksum_guard_nil_size && sh_header_checksum_guard_nil_marshal && sh_header_checksum_guard_nil_size &&
+   sh_payload_checksum_guard_nil_marshal && sh_payload_checksum_guard_nil_size &&
+   ck_data_guard_nil_marshal && ck_data_guard_nil_size)%bool = true.
+Proof. exact guards_all_nil. Qed.
+Print Assumptions optional_field_guards_agree.
+
 Theorem snapshotfile_roundtrip : forall s, wf_sf s -> sf_decode (sf_encode s) = Some s.
 Proof. exact sf_roundtrip_proved. Qed.
 Print Assumptions snapshotfile_roundtrip.
